@@ -518,6 +518,8 @@ func ruleDFCOVER(c *Ctx, r *Report) {
 	r.floor(rule, "positional operands", seen, 20)
 	// the wrapper itself: every path that returns its argument unchanged must have field == "" or
 	// the node not being a leaf of any of the three kinds
+	fldK, opK := fmt.Sprintf("$%d", pt.WFld), fmt.Sprintf("$%d", pt.WOp)
+	_ = opK
 	paths, _ := c.enumPaths(pt.Wrapper, 200)
 	ops := c.operatorConsts()
 	wrapsSomething, unscoped := false, false
@@ -526,16 +528,16 @@ func ruleDFCOVER(c *Ctx, r *Report) {
 			continue
 		}
 		res := c.resolve(p.Ret.Results[0], p.Env)
-		if res != pt.Wrapper.Params[0] {
+		if res != pt.Wrapper.Params[pt.WOp] {
 			if call, ok := res.(*ssa.Call); ok && call.Call.StaticCallee() != nil {
 				wrapsSomething = true
 				// the scoping is applied only when a field is configured
 				fieldSet := false
 				for _, a := range p.Atoms {
-					if a.Kind == "cmp" && a.Subj == "$1" && a.Op == "!=" && a.Val == `""` {
+					if a.Kind == "cmp" && a.Subj == fldK && a.Op == "!=" && a.Val == `""` {
 						fieldSet = true
 					}
-					if a.Kind == "len" && a.Subj == "$1" && (a.Op == ">" && a.N >= 0 || a.Op == ">=" && a.N >= 1 || a.Op == "!=" && a.N == 0) {
+					if a.Kind == "len" && a.Subj == fldK && (a.Op == ">" && a.N >= 0 || a.Op == ">=" && a.N >= 1 || a.Op == "!=" && a.N == 0) {
 						fieldSet = true
 					}
 				}
@@ -550,9 +552,9 @@ func ruleDFCOVER(c *Ctx, r *Report) {
 					r.bad("DF-COLUMN", "wrapper|ctor", c.instrPos(p.Ret), "the default-field wrapper must build Equals(Column(field), term) through the public constructor; it calls "+fnName(call.Call.StaticCallee()))
 				} else {
 					k := c.key(call.Call.Args[0], p.Env)
-					if strings.Contains(k, "expr.Column") && strings.Contains(k, "$1") {
+					if strings.Contains(k, "expr.Column") && strings.Contains(k, fldK) {
 						r.ok("DF-COLUMN", "wrapper|ctor", c.instrPos(p.Ret), "Equals(Column($1), $0)")
-					} else if k == "$1" {
+					} else if k == fldK {
 						// a plain string on the left of Equals: the general constructor wraps it in a Column
 						r.ok("DF-COLUMN", "wrapper|ctor", c.instrPos(p.Ret), "Equals($1, $0) — the general constructor wraps string fields of column operators in a Column")
 					} else {
@@ -569,13 +571,13 @@ func ruleDFCOVER(c *Ctx, r *Report) {
 			possible["expr."+name] = true
 		}
 		for _, a := range p.Atoms {
-			if a.Kind == "cmp" && a.Subj == "$1" && a.Op == "==" && a.Val == `""` {
+			if a.Kind == "cmp" && a.Subj == fldK && a.Op == "==" && a.Val == `""` {
 				fieldEmpty = true
 			}
-			if a.Kind == "len" && a.Subj == "$1" && (a.Op == "==" && a.N == 0 || a.Op == "<=" && a.N == 0 || a.Op == "<" && a.N == 1) {
+			if a.Kind == "len" && a.Subj == fldK && (a.Op == "==" && a.N == 0 || a.Op == "<=" && a.N == 0 || a.Op == "<" && a.N == 1) {
 				fieldEmpty = true
 			}
-			if a.Kind == "cmp" && a.Subj == "$0.Op" {
+			if a.Kind == "cmp" && a.Subj == opK+".Op" {
 				for o := range possible {
 					if a.Op == "==" && o != a.Val || a.Op == "!=" && o == a.Val {
 						delete(possible, o)
@@ -620,7 +622,7 @@ func ruleDFCOVER(c *Ctx, r *Report) {
 		}
 	}
 	for _, v := range retVals {
-		if v == ssa.Value(pt.Wrapper.Params[0]) {
+		if v == ssa.Value(pt.Wrapper.Params[pt.WOp]) {
 			continue
 		}
 		okShape := false
@@ -628,7 +630,7 @@ func ruleDFCOVER(c *Ctx, r *Report) {
 			bops := c.ctorOperator(call.Call.StaticCallee())
 			if len(bops) == 1 && bops[0] == "expr.Equals" && len(call.Call.Args) == 2 {
 				k := c.key(call.Call.Args[0], nil)
-				if (k == "$1" || k == "conv:expr.Column($1)") && c.resolve(call.Call.Args[1], nil) == ssa.Value(pt.Wrapper.Params[0]) {
+				if (k == fldK || k == "conv:expr.Column("+fldK+")") && c.resolve(call.Call.Args[1], nil) == ssa.Value(pt.Wrapper.Params[pt.WOp]) {
 					okShape = true
 				}
 			}
@@ -743,6 +745,7 @@ func ruleWRAPKEEP(c *Ctx, r *Report) {
 		return
 	}
 	w := pt.Wrapper
+	wop := pt.WOp
 	n := 0
 	for _, b := range w.Blocks {
 		for _, in := range b.Instrs {
@@ -767,7 +770,7 @@ func ruleWRAPKEEP(c *Ctx, r *Report) {
 			for _, v := range vals {
 				n++
 				key := "result|" + c.key(v, nil)
-				if c.resolve(v, nil) == ssa.Value(w.Params[0]) {
+				if c.resolve(v, nil) == ssa.Value(w.Params[wop]) {
 					r.ok(rule, key, c.instrPos(ret), "the operand itself")
 					continue
 				}
@@ -778,7 +781,7 @@ func ruleWRAPKEEP(c *Ctx, r *Report) {
 						if mi, ok := ra.(*ssa.MakeInterface); ok {
 							ra = c.resolve(mi.X, nil)
 						}
-						if ra == ssa.Value(w.Params[0]) {
+						if ra == ssa.Value(w.Params[wop]) {
 							kept = true
 						}
 					}
